@@ -79,9 +79,9 @@ pub fn configs(tier: Tier) -> Vec<String> {
     let mut v = vec![];
     if !cfg!(miri) {
         // large backing arrays: a user defined array of 384 elements, and the largest built-in one
-        v.push("lock=local,shared=0,buf=user,cap=384,payload=val".to_string());
-        v.push("lock=local,shared=0,buf=huge,cap=65536,payload=val".to_string());
-        v.push("lock=local,shared=1,buf=huge,cap=65536,payload=val".to_string());
+        v.push("lock=local,shared=0,buf=user,cap=384,payload=val,nobfs=1".to_string());
+        v.push("lock=local,shared=0,buf=huge,cap=65536,payload=val,nobfs=1".to_string());
+        v.push("lock=local,shared=1,buf=huge,cap=65536,payload=val,nobfs=1".to_string());
     }
     for lock in ["local", "sync", "spin"] {
         for shared in 0..2 {
